@@ -41,6 +41,10 @@ def build_router(cfg: Dict[str, Any]):
             act = pt.Seq(tag, pt.Approve())
         elif kind == "expr-none":
             act = tag
+        elif kind == "expr-chain":
+            # an If / ElseIf chain without Else whose arms all leave the program: control can still fall out of it
+            # (fee 0: tagged approve, fee 1: reject, otherwise the router's own Approve)
+            act = pt.If(pt.Txn.fee() == pt.Int(0)).Then(pt.Seq(tag, pt.Approve())).ElseIf(pt.Txn.fee() == pt.Int(1)).Then(pt.Reject())
         elif kind == "sub":
             def mk(ocn=ocn):
                 def bare_sub():
@@ -57,6 +61,8 @@ def build_router(cfg: Dict[str, Any]):
         clear = pt.Seq(pt.Log(pt.Bytes("CLEAR")), pt.Approve())
     elif ck == "expr-reject":
         clear = pt.Seq(pt.Log(pt.Bytes("CLEAR")), pt.Reject())
+    elif ck == "chain":
+        clear = pt.If(pt.Txn.fee() == pt.Int(0)).Then(pt.Seq(pt.Log(pt.Bytes("CLEAR")), pt.Approve())).ElseIf(pt.Txn.fee() == pt.Int(1)).Then(pt.Reject())
     elif ck == "sub":
         def clear_sub():
             return pt.Log(pt.Bytes("CLEAR"))
@@ -136,8 +142,14 @@ def approval_spec(cfg, arg0_lens=(0, 3, 4, 5)) -> List[Outcome]:
     sels = [selector("%s()void" % m["name"]) for m in methods]
     created_cases = [(True, aid == z3.BitVecVal(0, 64)), (False, aid != z3.BitVecVal(0, 64))]
 
-    def add(pc, ok, tag, shape):
-        if ok:
+    fee = z3.BitVec("g0.Fee", 64)
+
+    def add(pc, ok, tag, shape, kind=None):
+        if ok and kind == "expr-chain":
+            refs.append(Outcome(pre + pc + [fee == z3.BitVecVal(0, 64)], "return", ret=U(1), effects=[("log", Bs(list(tag)))], shape=dict(shape)))
+            refs.append(Outcome(pre + pc + [fee == z3.BitVecVal(1, 64)], "fail", kind="handler rejects", shape=dict(shape)))
+            refs.append(Outcome(pre + pc + [z3.UGT(fee, z3.BitVecVal(1, 64))], "return", ret=U(1), effects=[], shape=dict(shape)))
+        elif ok:
             refs.append(Outcome(pre + pc, "return", ret=U(1), effects=[("log", Bs(list(tag)))], shape=dict(shape)))
         else:
             refs.append(Outcome(pre + pc, "fail", kind="not allowed", shape=dict(shape)))
@@ -150,7 +162,7 @@ def approval_spec(cfg, arg0_lens=(0, 3, 4, 5)) -> List[Outcome]:
         for created, ccond in created_cases:
             d = bare.get(ocn)
             ok = d is not None and allowed(d["cc"], created)
-            add([na == z3.BitVecVal(0, 64), oc == z3.BitVecVal(k, 64), ccond], ok, b"B_" + ocn.encode(), {"GroupIndex": 0})
+            add([na == z3.BitVecVal(0, 64), oc == z3.BitVecVal(k, 64), ccond], ok, b"B_" + ocn.encode(), {"GroupIndex": 0}, (d or {}).get("kind"))
     for L in arg0_lens:
         shape = {"GroupIndex": 0, "len:" + ARG0: L}
         a0 = [z3.BitVec("%s#%d" % (ARG0, j), 8) for j in range(L)]
@@ -178,6 +190,11 @@ def clear_spec(cfg) -> List[Outcome]:
     ck = cfg.get("clear")
     if ck in ("expr", "sub", "abi"):
         return [Outcome([], "return", ret=U(1), effects=[("log", Bs(list(b"CLEAR")))], shape={"GroupIndex": 0})]
+    if ck == "chain":
+        fee = z3.BitVec("g0.Fee", 64)
+        return [Outcome([fee == z3.BitVecVal(0, 64)], "return", ret=U(1), effects=[("log", Bs(list(b"CLEAR")))], shape={"GroupIndex": 0}),
+                Outcome([fee == z3.BitVecVal(1, 64)], "fail", kind="rejected", shape={"GroupIndex": 0}),
+                Outcome([z3.UGT(fee, z3.BitVecVal(1, 64))], "return", ret=U(1), effects=[], shape={"GroupIndex": 0})]
     return [Outcome([], "fail", kind="rejected", shape={"GroupIndex": 0})]
 
 
@@ -191,6 +208,11 @@ def concrete_dispatch(cfg, conc) -> Outcome:
     if na == 0:
         d = (cfg.get("bare") or {}).get(ocn)
         if d is not None and allowed(d["cc"], created):
+            if d.get("kind") == "expr-chain":
+                f = int(conc.get("g0.Fee", 0))
+                if f == 1:
+                    return fail
+                return Outcome([], "return", ret=U(1), effects=[("log", Bs(list(b"B_" + ocn.encode())))] if f == 0 else [])
             return Outcome([], "return", ret=U(1), effects=[("log", Bs(list(b"B_" + ocn.encode())))])
         return fail
     a0 = conc.get(ARG0, b"")
@@ -263,7 +285,7 @@ def router_job(job: Dict[str, Any]) -> Dict[str, Any]:
             teal2 = res2[0] if which == "approval" else res2[1]
             prog2 = parse(teal2)
             p = reject_is_failure(tv.run_concrete(lambda c: SymAVM(prog2, c, Bounds(loop_k=300, call_depth=64, max_steps=200000)).run, wcfg, conc))
-            q = concrete_dispatch(cfg, conc) if which == "approval" else _concrete_clear(cfg)
+            q = concrete_dispatch(cfg, conc) if which == "approval" else _concrete_clear(cfg, conc)
             out["replayed"] += 1
             if tv.outcomes_differ_concretely(p, q):
                 if len(out["violations"]) < 3:
@@ -276,8 +298,12 @@ def router_job(job: Dict[str, Any]) -> Dict[str, Any]:
     return out
 
 
-def _concrete_clear(cfg) -> Outcome:
-    o = clear_spec(cfg)[0]
+def _concrete_clear(cfg, conc=None) -> Outcome:
+    spec = clear_spec(cfg)
+    o = spec[0]
+    if cfg.get("clear") == "chain":
+        f = int((conc or {}).get("g0.Fee", 0))
+        o = spec[0] if f == 0 else (spec[1] if f == 1 else spec[2])
     return Outcome([], o.verdict, ret=o.ret, effects=o.effects)
 
 
